@@ -72,6 +72,8 @@ type FW struct {
 	counter  []atomic.Int64
 	Cases    int
 	perNonce map[string][]Fault // per-request fault assignments (concurrent mode)
+
+	readmitCall, readmitRet int64
 }
 
 type Opt struct {
@@ -102,7 +104,7 @@ func New(o Opt) (*FW, error) {
 		if o.Types != nil {
 			typ = o.Types[i]
 		}
-		eps = append(eps, world.Endpoint{Name: name, URL: s.URL(), Type: typ, Priority: p, CheckInterval: 5 * time.Second, CheckTimeout: 500 * time.Millisecond})
+		eps = append(eps, world.Endpoint{Name: name, URL: s.URL(), Type: typ, Priority: p, CheckInterval: 5 * time.Second, CheckTimeout: 3 * time.Second})
 	}
 	rt := o.ReadTimeout
 	if rt == 0 {
@@ -311,7 +313,14 @@ func (f *FW) Readmit() {
 		b.Refuse(false)
 		b.SetHealth(200, "")
 	}
+	f.readmitCall = backend.Now()
 	f.W.ForceHealth()
+	f.readmitRet = backend.Now()
+}
+
+// ProbedOK reports whether backend i sent a 2xx health answer during the last Readmit round.
+func (f *FW) ProbedOK(i int) bool {
+	return f.B[i].Health2xxBetween(f.readmitCall, f.readmitRet)
 }
 
 // ParseOrigin splits a client body into origin records.
